@@ -107,6 +107,82 @@ func (c *Ctx) Confinement(prop string) {
 			}
 		}
 	}
+	// nothing that runs below the stateful rules writes memory shared between requests: the per-key locks serialise requests for
+	// one key only, requests for different keys run the same code concurrently, so a field of the (single) rules service, a
+	// package-level variable, or a buffer loaded from either must not be written there
+	{
+		svcT := s.RulesImpl
+		sharedRoot := func(v ssa.Value) (string, bool) {
+			for i := 0; i < 8 && v != nil; i++ {
+				switch x := v.(type) {
+				case *ssa.FieldAddr:
+					if namedOf(x.X.Type()) == svcT {
+						return "field " + fieldNameOf(x) + " of the rules service", true
+					}
+					v = x.X
+				case *ssa.IndexAddr:
+					v = x.X
+				case *ssa.Slice:
+					v = x.X
+				case *ssa.UnOp:
+					v = x.X
+				case *ssa.Global:
+					if x.Pkg != nil && prog.InModule(x.Pkg.Func("init")) {
+						return "package-level variable " + x.Name(), true
+					}
+					return "", false
+				case *ssa.ChangeType:
+					v = x.X
+				default:
+					return "", false
+				}
+			}
+			return "", false
+		}
+		nscan, nbad := 0, 0
+		seenFn := map[*ssa.Function]bool{}
+		for _, e := range []*ssa.Function{s.Attest, s.AttestB, s.Propose} {
+			for _, f := range c.StaticReach(e, 8) {
+				if seenFn[f] || f.Blocks == nil || prog.PkgPathOf(f) != s.Pkg.Pkg.Path() {
+					continue
+				}
+				// the store type has its own discipline (C03); its methods are not rule code
+				if f.Signature.Recv() != nil && namedOf(f.Signature.Recv().Type()) == s.StoreType {
+					continue
+				}
+				seenFn[f] = true
+				nscan++
+				for _, g := range WithClosures(f) {
+					for _, b := range g.Blocks {
+						for _, ins := range b.Instrs {
+							var addr ssa.Value
+							switch x := ins.(type) {
+							case *ssa.Store:
+								addr = x.Addr
+							case *ssa.MapUpdate:
+								addr = x.Map
+							case *ssa.Call:
+								if isBuiltin(x, "copy") && len(x.Call.Args) == 2 {
+									addr = x.Call.Args[0]
+								}
+							}
+							if addr == nil {
+								continue
+							}
+							if what, shared := sharedRoot(addr); shared {
+								nbad++
+								c.R.Fail(rule6, Fn(g)+":shared-write", c.Pos(ins), "rule evaluation writes "+what+": requests for different keys run this code concurrently (the key locks only serialise one key), so one request can overwrite what another is using", "rule evaluation keeps its working state in locals; only the store is shared, and only under the key locks", nil)
+							}
+						}
+					}
+				}
+			}
+		}
+		c.R.Floor(rule6, "rule functions scanned for writes to shared memory", nscan, 6)
+		if nbad == 0 {
+			c.R.OK(rule6, "shared-writes", c.P.FuncPos(s.Attest), fmt.Sprintf("%d functions below the stateful rules write no field of the rules service, no package-level variable and no buffer loaded from them", nscan))
+		}
+	}
 	c.R.Floor(rule6, "store call sites in production code", nsites, 6)
 	if nleak == 0 {
 		c.R.OK(rule6, "store-handle", c.P.FuncPos(s.StoreStore), fmt.Sprintf("%d store call sites, all below the stateful rules or import/export; the database handle does not leave the store type", nsites))
